@@ -21,6 +21,8 @@ import Golib.Conc.WellNested
 import Golib.Conc.Racy
 import Golib.Conc.Lockset
 import Golib.Conc.SeqSpecThms
+import Golib.Conc.Instances
+import Golib.Conc.Deadlock
 
 namespace C10
 open Conc
@@ -93,6 +95,32 @@ theorem lockset_race_free (pre mid post : List Lockset.E) (t u : Nat) (w w' : Bo
     ∃ m1 m2 m3, mid = m1 ++ [Lockset.E.rel t] ++ m2 ++ [Lockset.E.acq u] ++ m3 :=
   Lockset.lockset_race_free pre mid post t u w w' htu h0 h1
 
+/-! ### self-deadlock and lock order: the table judgements imply deadlock freedom of the call graph -/
+
+open LockFacts in
+/-- **no_self_deadlock is sound.**  For every lock table `T` (regenerated from the source): if the
+    decidable judgement `noSelfDeadlock T` holds, then in the call-graph machine `runs` no method
+    entered without the lock, to any call depth, ever tries to take the non re-entrant lock while it
+    holds it.  (C10Gen applies this to the twenty regenerated tables: `C10Gen.deadlock_free`.) -/
+theorem no_self_deadlock_sound (T : TypeFacts) (h : noSelfDeadlock T = true) :
+    ∀ n m, runs T n false m = true :=
+  noSelfDeadlock_sound T h
+
+open LockFacts in
+/-- … and the judgement is not vacuous: a direct re-lock is a deadlock of the machine -/
+theorem relock_is_a_deadlock (T : TypeFacts) (M C : Method) (c : String) (hmem : M ∈ T.methods)
+    (hf : T.find M.name = some M) (ha : M.acquires = true) (hc : c ∈ M.callsHeld)
+    (hC : T.find c = some C) (hCa : C.acquires = true) : runs T 2 false M.name = false :=
+  relock_reaches_deadlock T M C c hmem hf ha hc hC hCa
+
+open LockFacts in
+/-- no lock order between two instances of one type: if `nestFree T` holds, no execution ever holds or
+    requests both instances' locks, and a thread that never does cannot be part of a wait cycle -/
+theorem no_lock_order_deadlock (T : TypeFacts) (h : nestFree T = true) :
+    (∀ n m, nests T n false false m = false) ∧
+    (∀ w1 w2 : Wait, (w1.holds = none ∨ w1.wants = none) → ¬ cycle2 w1 w2) :=
+  ⟨nestFree_sound T h, fun w1 w2 h1 => no_cycle_without_nesting w1 w2 h1⟩
+
 /-! ### what goes wrong without the lock (the model of a method that forgets it — D18) -/
 
 /-- a body that reads and writes without the lock loses an update: two increments, final state 1 -/
@@ -153,6 +181,83 @@ theorem double_queue_linearizable (c1 c2 : Int) (sched : List (Act Queue.DOp))
     wn s.log ∧ legal dqstep (linOps s.log) ⟨⟨[], c1⟩, ⟨[], c2⟩⟩ ∧
       s.sh = runOps dqstep (linOps s.log) ⟨⟨[], c1⟩, ⟨[], c2⟩⟩ :=
   Conc.mutex_herlihy_wing dqstep ⟨⟨[], c1⟩, ⟨[], c2⟩⟩ sched s h
+
+/-! ### the concrete CodeModels: linearizable with respect to their *Specs*
+
+  The instances above use small abstract objects.  The following three use the CodeModels that C09,
+  C12 and C13 tie to the Go code (bucket arrays with hash chains and an order list; the doubly linked
+  pointer heap) with their full operation sets, and conclude linearizability with respect to the
+  *Spec* (insertion-ordered dictionary, functional map, deque) through the refinement theorems of
+  those properties — for every hash function, growth policy, type descriptor, initial capacity,
+  number of threads and schedule. -/
+
+section concrete
+open HMap
+
+variable {K V : Type} [DecidableEq K] [DecidableEq V]
+
+/-- **linked hash maps / sets (13 types, C09 CodeModel, all operations incl. put modes, eviction, GetLRU,
+    sort, enumerations): every concurrent history is linearizable w.r.t. the insertion-ordered
+    dictionary Spec**, and the shared structure always satisfies the structure invariant and
+    abstracts to the Spec state reached by the linearization. -/
+theorem linked_maps_linearizable_wrt_dictionary (hash : K → Nat) (thr : Nat → Nat) (d : Desc K V) (cap : Nat)
+    (sched : List (Act (HMap.Op K V))) (s : St (LMap K V) (HMap.Op K V) (Out K V))
+    (h : runActs (LMap.step hash thr d) (initSt (LMap.new thr cap)) sched = some s) :
+    wn s.log ∧ legal (S.step d) (linOps s.log) {} ∧
+      LMap.Inv hash d s.sh ∧ LMap.abs hash s.sh = runOps (S.step d) (linOps s.log) {} := by
+  obtain ⟨h1, h2, h3, h4⟩ := Conc.mutex_refines _ _ _ _ (Inst.linked_simulates hash thr d) _ _
+    (Inst.linked_init hash thr d cap) sched s h
+  exact ⟨h1, (Conc.legalAbs_eq _ _ _).1 h2, h3, by rw [h4, Conc.runAbs_eq]⟩
+
+/-- plain hash maps / sets (C12 CodeModel): linearizable w.r.t. the functional-map Spec, outputs equal
+    up to the order of enumerations -/
+theorem plain_maps_linearizable_wrt_map (hash : K → Nat) (thr : Nat → Nat) (d : PDesc K V) (cap : Nat)
+    (sched : List (Act (POp K V))) (s : St (PMap K V) (POp K V) (Out K V))
+    (h : runActs (PMap.step hash thr d) (initSt (PMap.new thr cap)) sched = some s) :
+    wn s.log ∧ legalAbs (PS.step d) Out.equiv (linOps s.log) {} ∧
+      PMap.Rel hash d s.sh (runAbs (PS.step d) (linOps s.log) {}) :=
+  Conc.mutex_refines _ _ _ _ (Inst.plain_simulates hash thr d) _ _ (PMap.Rel.new cap) sched s h
+
+end concrete
+
+/-- the linked list (C13 CodeModel: nodes in a heap with prev/next pointers, all operations incl.
+    entity removal and PutBefore): linearizable w.r.t. the deque Spec -/
+theorem linked_list_linearizable_wrt_deque (sched : List (Act Lists.Linked.Op))
+    (s : St Lists.Linked.LL Lists.Linked.Op Lists.Linked.Out)
+    (h : runActs Inst.llStep (initSt Lists.Linked.LL.empty) sched = some s) :
+    wn s.log ∧ legal Inst.llSpec (linOps s.log) [] ∧
+      Inst.ListRel s.sh (runOps Inst.llSpec (linOps s.log) []) := by
+  obtain ⟨h1, h2, h3⟩ := Conc.mutex_refines _ _ _ _ Inst.list_simulates _ _ Inst.list_init sched s h
+  exact ⟨h1, (Conc.legalAbs_eq _ _ _).1 h2, by rw [← Conc.runAbs_eq]; exact h3⟩
+
+/-- the generic transfer used above, for any refinement proved elsewhere -/
+theorem linearizability_transfers_along_refinement {σc σa Op' RetC RetA : Type}
+    (stepC : σc → Op' → σc × RetC) (stepA : σa → Op' → σa × RetA)
+    (R : σc → σa → Prop) (Q : RetC → RetA → Prop) (hsim : Simulates stepC stepA R Q)
+    (c0 : σc) (a0 : σa) (h0 : R c0 a0) (sched : List (Act Op')) (s : St σc Op' RetC)
+    (hs : runActs stepC (initSt c0) sched = some s) :
+    wn s.log ∧ legalAbs stepA Q (linOps s.log) a0 ∧ R s.sh (runAbs stepA (linOps s.log) a0) :=
+  Conc.mutex_refines stepC stepA R Q hsim c0 a0 h0 sched s hs
+
+/-! ### non-vacuity: overlapping operations on the concrete CodeModels -/
+
+def exDesc : HMap.Desc Nat Nat := { comb := (· + ·), veq := (· == ·) }
+
+/-- a put and a GetLRU overlap on the bucket-array model; the GetLRU is linearized first and misses -/
+example :
+    (runActs (HMap.LMap.step (fun k => k) (fun n => n * 3 / 4) exDesc) (initSt (HMap.LMap.new (fun n => n * 3 / 4) 3))
+      [.inv 1 (.put .last 7 1), .inv 2 (.getLRU 7), .acq 2, .load 2, .store 2, .rel 2,
+       .acq 1, .load 1, .store 1, .rel 1, .ret 1, .ret 2]).map
+        (fun s => (linOps s.log).map (fun x => (x.1, x.2.2))) =
+    some [(2, .none), (1, .none)] := by rfl
+
+/-- an AddLast and a RemoveFirst overlap on the pointer-heap model of the linked list -/
+example :
+    (runActs Inst.llStep (initSt Lists.Linked.LL.empty)
+      [.inv 1 (.addLast 5), .inv 2 .removeFirst, .acq 1, .load 1, .store 1, .rel 1,
+       .acq 2, .load 2, .store 2, .rel 2, .ret 2, .ret 1]).map
+        (fun s => (linOps s.log).map (fun x => (x.1, x.2.2))) =
+    some [(1, .unit), (2, .val 5)] := by rfl
 
 /-! ### non-vacuity: a schedule with two overlapping operations on a dictionary -/
 
